@@ -47,7 +47,7 @@ class Poly(object):
                 m = {}
                 for s, p in k1 + k2:
                     m[s] = m.get(s, 0) + p
-                k = tuple(sorted(m.items()))
+                k = tuple(sorted((s_, p_) for s_, p_ in m.items() if p_ != 0))
                 r[k] = r.get(k, 0) + v1 * v2
         return Poly(r)
 
@@ -59,8 +59,12 @@ class Poly(object):
 
     def div(self, o):
         o = as_poly(o)
+        if len(o.t) == 1:
+            (k, v), = o.t.items()
+            inv = Poly({tuple((s_, -p_) for s_, p_ in k): Fraction(1) / v})
+            return self * inv
         if not o.is_const() or o.cval() == 0:
-            raise OutOfVocabulary("division by a non-constant")
+            raise OutOfVocabulary("division by a sum")
         return Poly({k: v / o.cval() for k, v in self.t.items()})
 
     def __eq__(self, o):
@@ -223,6 +227,11 @@ class Interp(object):
             if oop == "=":
                 v = self.ev(n["c"][2])
                 self.store(self.lval(n["c"][1]), v)
+                return v
+            if oop in ("*=", "/=", "+=", "-=") and len(n["c"]) == 3:
+                lv = self.lval(n["c"][1])
+                v = self.arith(oop[0], self.load(lv), self.ev(n["c"][2]), n)
+                self.store(lv, v)
                 return v
             if oop == "()":
                 fn = self.ev(n["c"][1])
